@@ -13,7 +13,7 @@
 //!
 //! Value mapping (DESIGN 3.5): counter ring value x in 0..16000 = hi*1000 + lo (|lo| < 500)
 //! <-> hi*2^60 + lo mod 2^64 (15999 <-> u64::MAX); f64 model integer n <-> n/4,
-//! 1000001 = NaN, 1000002 = +Inf, 1000003 = -Inf; count 2000000 <-> usize::MAX.
+//! 1000001 = NaN, 1000002 = +Inf, 1000003 = -Inf, 1000004 = -0.0 (0 is +0.0: bit-exact); count 2000000 <-> usize::MAX.
 use metrics::{Counter, Gauge, Histogram, HistogramFn};
 use rand::Rng;
 use serde_json::{json, Value};
@@ -27,6 +27,7 @@ use vh::trace::Writer;
 const NAN: i64 = 1_000_001;
 const PINF: i64 = 1_000_002;
 const NINF: i64 = 1_000_003;
+const NZERO: i64 = 1_000_004; // -0.0 (model 0 is +0.0: the mapping is one-to-one on bit patterns, NaN payloads aside)
 const BIGN: i64 = 2_000_000;
 const UNMAPPED: i64 = -7_777_777;
 const RING: i64 = 16_000;
@@ -60,6 +61,7 @@ fn model_to_f64(a: i64) -> f64 {
         NAN => f64::NAN,
         PINF => f64::INFINITY,
         NINF => f64::NEG_INFINITY,
+        NZERO => -0.0,
         _ => a as f64 / 4.0,
     }
 }
@@ -70,6 +72,8 @@ fn f64_to_model(g: f64) -> i64 {
         PINF
     } else if g == f64::NEG_INFINITY {
         NINF
+    } else if g.to_bits() == (-0.0f64).to_bits() {
+        NZERO
     } else {
         let q = g * 4.0;
         if q.fract() == 0.0 && q.abs() < 2.0e9 {
@@ -271,13 +275,13 @@ fn run_program(ops: &[Op], w: &mut Writer) -> usize {
 
 // ------------------------------------------------------------------ random sequential programs
 const CVALS: [i64; 10] = [0, 1, 2, 1000, 3001, 7999, 8000, 15000, 15998, 15999];
-const FVALS: [i64; 9] = [0, 1, 2, -6, 10, 67_108_868, NAN, PINF, NINF];
+const FVALS: [i64; 11] = [0, NZERO, 0, 1, 2, -6, 10, 67_108_868, NAN, PINF, NINF];
 
 fn random_typed(rng: &mut rand::rngs::StdRng, arith: bool) -> (String, i64, i64) {
     // (ty, a, b); `arith`: the value takes part in additions (keep the sums inside TLC's 32-bit integers)
     match rng.random_range(0..14) {
         0..=4 => ("f64".into(), FVALS[rng.random_range(0..FVALS.len())], 0),
-        5 => ("f32".into(), [1, -6, 10, NAN, PINF, NINF, 4 * 16_777_216][rng.random_range(0..7)], 0),
+        5 => ("f32".into(), [1, -6, 10, NAN, PINF, NINF, 4 * 16_777_216, 0, NZERO][rng.random_range(0..9)], 0),
         6 => ("i8".into(), [-128, -1, 0, 127][rng.random_range(0..4)], 0),
         7 => ("u8".into(), [0, 1, 255][rng.random_range(0..3)], 0),
         8 => ("i16".into(), [-32768, 32767, 5][rng.random_range(0..3)], 0),
@@ -301,7 +305,14 @@ fn random_op(rng: &mut rand::rngs::StdRng) -> Op {
         },
         5..=8 => {
             let op = ["inc", "dec", "set"][rng.random_range(0..3)];
-            let (ty, a, b) = random_typed(rng, op != "set");
+            // one gauge operation in three passes a zero: +0.0 / -0.0 as f64 or f32, an integer zero, the zero Duration
+            let (ty, a, b) = if rng.random_range(0..3) == 0 {
+                let z: [(&str, i64); 8] = [("f64", 0), ("f64", NZERO), ("f32", 0), ("f32", NZERO), ("u32", 0), ("i8", 0), ("f64", NZERO), ("dur", 0)];
+                let (ty, a) = z[rng.random_range(0..z.len())];
+                (ty.to_string(), a, 0)
+            } else {
+                random_typed(rng, op != "set")
+            };
             Op { h, op: op.into(), ty, a, b, n: 0 }
         }
         _ => {
@@ -495,7 +506,7 @@ fn par_gset(rng: &mut rand::rngs::StdRng) -> Value {
     let cell = Arc::new(AtomicU64::new(0));
     let base = Gauge::from_arc(cell.clone());
     let go = Arc::new(AtomicBool::new(false));
-    let pool = [1i64, -6, 10, 0, 333, PINF, NINF, NAN, 67_108_868];
+    let pool = [1i64, -6, 10, 0, NZERO, 333, PINF, NINF, NAN, 67_108_868];
     let mut hs = vec![];
     for _ in 0..nthreads {
         let h = base.clone();
@@ -665,7 +676,7 @@ fn lin_trial(rng: &mut rand::rngs::StdRng, sh: &Arc<LinShared>) -> (Value, bool)
     let counter = rng.random_range(0..2) == 0;
     let nthreads = rng.random_range(2..=nworkers);
     let cvals = [1i64, 2, 1000, 8000, 15999, 15000];
-    let gvals = [1i64, -6, 10, 3, PINF, NINF];
+    let gvals = [1i64, -6, 10, 3, PINF, NINF, 0, NZERO, NZERO];
     for t in 0..nworkers {
         let ops: Vec<(&'static str, i64, u32)> = if t >= nthreads {
             vec![]
